@@ -3,7 +3,7 @@
    under each.  Rows are abstract (`f i` = what vi_drawrow draws for absolute row i); the terminal
    primitives are the list operations of the emulator (TermEmu.v) that interprets the real stream. *)
 From Coq Require Import List Arith ZArith Bool.
-From NV Require Import Bytes TermEmu DrawDefs DrawProps DrawPutDefs DrawPutProps.
+From NV Require Import Bytes TermEmu DrawDefs DrawProps DrawPutDefs DrawPutProps TermOutDefs TermOutProps.
 Import ListNotations.
 
 (* emulator lemmas of the scroll algebra: delete / insert line in the text region [0,h) of a
@@ -236,4 +236,64 @@ Example C19_nonvacuous_put :
   let c := vc_put_chars 5 [108; 105; 110]%N ([101; 32; 54] ++ [10])%N reg 2 in
   count_nl reg = 2 /\ length (text_lines (p_text c)) = 5 /\ (p_r1 c, p_r2 c, p_n c) = (5, 5, 5)%Z /\
   nth 1 (text_lines (p_text c)) [] = [108; 105; 110; 101; 32; 50]%N.
+Proof. vm_compute. repeat split; reflexivity. Qed.
+
+(* ---- the scroll region (term.c term_window / term_done / term_init as the strings they write, TermOutDefs.v, interpreted by the
+   emulator).  win_beg / win_rows are only the editor's COPY of the terminal's region. *)
+(* term_window(beg, cnt) for a window of at least two rows inside the screen: the emulator's region is exactly [beg, beg + cnt)
+   afterwards, the cursor is home, cells and error count are untouched (sprintf("%d") is read back by the CSI parser) *)
+Theorem C19_emu_term_window : forall t rows beg cnt, t_st t = Ground -> t_rows t = rows -> 2 <= cnt -> beg + cnt <= rows ->
+  run t (term_window_out rows beg cnt) = upd t (t_cells t) 0 0 beg (beg + cnt) Ground (t_err t).
+Proof. exact emu_term_window. Qed.
+Print Assumptions C19_emu_term_window.
+(* term_done: whatever the region was, it is the whole screen afterwards (the copy w is not touched) *)
+Theorem C19_emu_term_done_resets_region : forall t rows w, t_st t = Ground -> t_rows t = rows -> 2 <= rows ->
+  let t' := run t (term_done rows w) in
+  t_top t' = 0 /\ t_bot t' = rows /\ t_rows t' = rows /\ t_cols t' = t_cols t /\ t_err t' = t_err t /\ t_st t' = Ground.
+Proof. exact emu_term_done. Qed.
+Print Assumptions C19_emu_term_done_resets_region.
+(* term_done(); term_init(); -- ^L, and cmd_pipe() around a child that owns the terminal (:!cmd) -- with the copy w = a window of
+   at least two rows: the copy is unchanged and the emulator's region equals it again IF AND ONLY IF term_init's term_window
+   writes its sequence (cached = false: term.c) or the copy is the whole screen anyway.  With the text rows [0, rows - 1) of a
+   single window a term_window that returns early when the request equals the copy leaves the terminal's region at the whole
+   screen after every re-initialisation. *)
+Theorem C19_reinit_region_iff : forall t rows w (cached : bool),
+  t_st t = Ground -> t_rows t = rows -> 2 <= win_rows w -> win_beg w + win_rows w <= rows ->
+  let '(w', o) := reinit_out cached rows w in
+  let t' := run t o in
+  w' = w /\ t_st t' = Ground /\ t_err t' = t_err t /\ t_rows t' = rows /\
+  (region_agrees t' w' = true <-> cached = false \/ (win_beg w = 0 /\ win_rows w = rows)).
+Proof. exact emu_reinit. Qed.
+Print Assumptions C19_reinit_region_iff.
+(* why it matters: vi_nextline() on the bottom text row h - 1 of a single window (rows = h + 1) writes '\n' and term_pos(h - 1, 0).
+   With the region [0, h) the text rows scroll by one -- del_lines 0 h 0 1, the screen `nextline` of DrawDefs.v computes and
+   C19_nextline_opens_line is about --; with the region [0, h + 1) NO row changes and the cursor is back on row h - 1: the text rows
+   stay one line behind the buffer *)
+Theorem C19_nextline_bottom_needs_region : forall t h (bot : nat),
+  t_st t = Ground -> t_rows t = S h -> 2 <= h -> 1 <= t_cols t -> t_top t = 0 -> t_bot t = bot -> t_r t = h - 1 ->
+  (bot = h \/ bot = S h) ->
+  let t' := run t (nextline_bottom_out (mkTwin 0 h)) in
+  t_r t' = h - 1 /\ t_c t' = 0 /\
+  t_cells t' = if bot =? h then del_lines (blank_row (t_cols t)) 0 h 0 1 (t_cells t) else t_cells t.
+Proof. exact emu_nextline_bottom. Qed.
+Print Assumptions C19_nextline_bottom_needs_region.
+(* a DEL byte in the stream is ignored (a real terminal gives it no cell and does not move): a row renderer that sends a raw DEL for
+   a character which the column mapping counts as one cell draws the rest of the row one cell too far left *)
+Theorem C19_emu_del_ignored : forall t pre post, t_st (run t pre) = Ground -> run t (pre ++ 127%N :: post) = run t (pre ++ post).
+Proof. exact emu_del_ignored. Qed.
+Print Assumptions C19_emu_del_ignored.
+(* the hypotheses are satisfiable and the two sides differ: LINES=8 COLUMNS=30 (7 text rows), rows 0..6 hold the characters '0'..'6';
+   ^L, then the cursor on row 6, then vi_nextline.  term.c: region [0,7), row 0 shows '1' afterwards.  The variant that trusts the
+   copy: region [0,8), row 0 still shows '0'. *)
+Example C19_nonvacuous_reinit :
+  let w := mkTwin 0 7 in
+  let t0 := run (term_new 8 30) (term_window_out 8 0 7 ++
+              flat_map (fun i => term_pos_out 0 i 0 ++ [N.of_nat (48 + i)]) (seq 0 7)) in
+  let after (cached : bool) := run (run t0 (snd (reinit_out cached 8 w))) (term_pos_out 0 6 0 ++ nextline_bottom_out w) in
+  (t_top t0, t_bot t0, t_err t0) = (0, 7, 0) /\
+  region_agrees (run t0 (snd (reinit_out false 8 w))) w = true /\
+  region_agrees (run t0 (snd (reinit_out true 8 w))) w = false /\
+  hd 0%N (hd [] (t_cells (after false))) = 49%N /\ hd 0%N (hd [] (t_cells (after true))) = 48%N /\
+  t_err (after false) = 0 /\ t_err (after true) = 0 /\
+  run (term_new 2 5) [97; 127; 98]%N = run (term_new 2 5) [97; 98]%N.
 Proof. vm_compute. repeat split; reflexivity. Qed.
